@@ -38,7 +38,15 @@ VH_NOINSTR int main(int argc, char** argv) {
     rounds = n;
   }
   fiber_manager_init(k);
+  /* init must not rely on zeroed storage (a barrier on the stack / in recycled memory) */
+  memset(&bar, 0xAB, sizeof bar);
+  __asm__ __volatile__("" : : "r"(&bar) : "memory");
   fiber_barrier_init(&bar, (uint32_t)vh_script.nfibers);
+  /* a long-lived barrier: optionally start `counter` at a multiple of count just below
+   * 2^32 (as after that many arrivals), so the 32-bit boundary is crossed within the run */
+  unsigned long long base = argc > 3 ? strtoull(argv[3], 0, 10) : 0;
+  base -= base % (2ull * (unsigned long long)vh_script.nfibers); /* keep round parity (queue choice) aligned */
+  if (argc > 3) bar.counter = base; /* otherwise keep exactly what fiber_barrier_init left */
   vr_reg(&bar.counter, sizeof bar.counter, "counter");
   /* the waiter queue(s): one in the code as it is; a candidate fix may have two (parity) */
   mpsc_fifo_t* q = (mpsc_fifo_t*)&bar.waiters;
@@ -58,7 +66,7 @@ VH_NOINSTR int main(int argc, char** argv) {
       vr_reg(&q[i].tail->data, 8, "S%d.data", i);
     }
   }
-  vr_note("init barrier %d %d %d %d", vh_script.nfibers, nq, rounds, k);
+  vr_note("init barrier %d %d %d %d %llu", vh_script.nfibers, nq, rounds, k, base);
   vh_rt_run(k, do_op, 0);
   vr_finish("OK");
 }
